@@ -242,6 +242,14 @@ namespace MView
 /-- `impl MatrixRef for Matrix` -/
 def ofMatrix (m : Matrix α) : MView α := ⟨m.rows, m.columns, m.tryGet⟩
 
+/-- `MatrixRefTensor::from(source)` (`src/interop/mod.rs`): a 2-dimensional `TensorRef` seen as a
+    `MatrixRef` — rows and columns are the two lengths, `try_get_reference(r, c)` is
+    `get_reference([r, c])`; the dimension names are forgotten. -/
+def ofTView {ν : Type} (v : TView ν α) : Option (MView α) :=
+  match v.shape with
+  | [d0, d1] => some ⟨d0.2, d1.2, fun r c => v.get [r, c]⟩
+  | _ => none
+
 /-- `RowMajorReferenceIterator::from(source)` -/
 def elems (v : MView α) : List α :=
   (List.range v.rows).flatMap fun r => (List.range v.columns).filterMap fun c => v.get r c
